@@ -61,8 +61,8 @@ def is_raw_vector_fn(F, name):
     return f is not None and f.get("impl_self") == RV
 
 
-def check_config(ctx, F, tag):
-    # ---------------- R1 triggers, crate-wide
+def check_tail_invariant(ctx, F, tag, prefix="C05.R1"):
+    """R1: the unused bits of a RawVector's last word are re-zeroed after every shrinking / filling trigger."""
     ntrig = 0
     outside = []
     for b in F.all_bodies():
@@ -91,10 +91,10 @@ def check_config(ctx, F, tag):
                 empty = d[0] == "call" and (d[1] in EMPTY_DATA or d[1].startswith("std::vec::Vec::<T>::with_capacity") or d[1].startswith("std::vec::Vec::<T>::new"))
                 if empty:
                     ln = b.term_of_operand(ops["len"])
-                    ctx.ob("C05.R1.empty-aggregate-len-zero", b.name + tag, loc(st["sp"]), m(Const(0), ln) or m(Call("std::default::Default::default"), ln), "term-shape", "RawVector{len: %s, data: empty}" % tstr(ln), nontrivial=False)
+                    ctx.ob(prefix + ".empty-aggregate-len-zero", b.name + tag, loc(st["sp"]), m(Const(0), ln) or m(Call("std::default::Default::default"), ln), "term-shape", "RawVector{len: %s, data: empty}" % tstr(ln), nontrivial=False)
                 elif b.name in REVIEWED_AGGREGATES:
-                    ctx.exempt("C05.R1.tail-cleared-after-trigger", b.name, loc(st["sp"]), REVIEWED_AGGREGATES[b.name])
-                    ctx.ob("C05.R1.tail-cleared-after-trigger", "%s|aggregate%s" % (b.name, tag), loc(st["sp"]), True, "reviewed-invariant", REVIEWED_AGGREGATES[b.name])
+                    ctx.exempt(prefix + ".tail-cleared-after-trigger", b.name, loc(st["sp"]), REVIEWED_AGGREGATES[b.name])
+                    ctx.ob(prefix + ".tail-cleared-after-trigger", "%s|aggregate%s" % (b.name, tag), loc(st["sp"]), True, "reviewed-invariant", REVIEWED_AGGREGATES[b.name])
                 else:
                     trig.append((bi, "RawVector{data: %s}" % tstr(d)[:60], st["sp"]))
         # (c) Vec::resize with a non-zero filler on a RawVector's data, (d) stores through iter_mut items of data
@@ -123,13 +123,13 @@ def check_config(ctx, F, tag):
                 ok = comutated(b, bi, vclear)
             # a clearing call in the trigger's own block must come after it: blocks are split at calls, so a trigger statement
             # in block bi precedes the call terminating bi.
-            ctx.ob("C05.R1.tail-cleared-after-trigger", "%s|%s#%d%s" % (b.name, what.split(" ")[0], k, tag), loc(sp), ok, "must-pass-through",
+            ctx.ob(prefix + ".tail-cleared-after-trigger", "%s|%s#%d%s" % (b.name, what.split(" ")[0], k, tag), loc(sp), ok, "must-pass-through",
                    "trigger `%s`: every path to return %s set_unused_bits(false) / data.clear()" % (what, "passes" if ok else "does NOT pass"))
     ctx.count("tail-triggers" + tag, ntrig)
-    ctx.ob("C05.R1.fields-private-to-impl", RV + tag, "src/raw_vector.rs", not outside, "who-may-store", "RawVector field stores/aggregates outside impl RawVector: %s" % outside)
+    ctx.ob(prefix + ".fields-private-to-impl", RV + tag, "src/raw_vector.rs", not outside, "who-may-store", "RawVector field stores/aggregates outside impl RawVector: %s" % outside)
     adt = F.adt(RV)
     for f in adt["variants"][0]["fields"]:
-        ctx.ob("C05.R1.field-private", "%s.%s%s" % (RV, f["name"], tag), loc(adt["span"]), f["vis"] != "pub", "item-structure", "field %s visibility %s" % (f["name"], f["vis"]), nontrivial=False)
+        ctx.ob(prefix + ".field-private", "%s.%s%s" % (RV, f["name"], tag), loc(adt["span"]), f["vis"] != "pub", "item-structure", "field %s visibility %s" % (f["name"], f["vis"]), nontrivial=False)
     # set_unused_bits(false) really masks the last word: and-store with low_set(width) under width > 0
     sb = F.body(SUB)
     ands = [(bi, st) for bi, si, st in sb.stmts() if st["s"] == "assign" and st["lhs"]["p"] == ["deref"] and st["rv"]["r"] == "bin" and st["rv"]["op"] == "BitAnd"]
@@ -150,9 +150,13 @@ def check_config(ctx, F, tag):
                 any(self_path(x) == ["data"] for x in subterms(idx))
             oks = okw and g and nf and oki
             detail = "data[split_offset(len).0] &= low_set(split_offset(len).1) when width > 0 and value == false: mask-width=%s guard=%s false-arm=%s index=%s" % (okw, g, nf, oki)
-    ctx.ob("C05.R1.helper-masks-last-word", SUB + tag, loc(sb.raw["span"]), oks, "term-shape+guard", detail)
+    ctx.ob(prefix + ".helper-masks-last-word", SUB + tag, loc(sb.raw["span"]), oks, "term-shape+guard", detail)
     ctx.floor("tail-triggers" + tag, 7)
 
+
+
+def check_config(ctx, F, tag):
+    check_tail_invariant(ctx, F, tag)
     # ---------------- R2 mask before store
     check_write_int(ctx, F, tag, prefix="C05.R2")
     # push_bit ors the bit at split_offset(len) and new words are pushed as zero
